@@ -95,6 +95,33 @@ CLAIMED.update({
         note='definitional theorems (default/indeterminate/dir) are not proved; decided per case (partial).',
         technique='Coq corollaries of the Boolean laws + definitional oracle + differential'),
 })
+CLAIMED.update({
+    'C14': dict(cat='proof', design='DESIGN.md §7 C14',
+        text='Theorem (for every interleaving, any number of threads): threads that touch shared state only by reading it or through '
+             'atomic, value-deterministic memo cells observe exactly what they observe alone. Its premise for the code as it is now is '
+             'the access summary regenerated from the sources by T6 (stores on import-time instances, stores to module-level objects, '
+             'memoised functions returning mutable objects): proved empty. Schedules chosen over every source-line preemption point '
+             'are forced on the real threads (sys.settrace) and compared with the serial results; free-running stress in addition.',
+        note='assumes atomic lru_cache/dict/list primitives under the GIL and re-entrant re/bs4/unicodedata; T6 is a conservative static summary; preemption at line granularity.',
+        technique='Coq serializability theorem over a source-derived access summary + deterministic schedule replay'),
+    'C15': dict(cat='proof', design='DESIGN.md §7 C15',
+        text='Theorems: for any key type, compile function and bound, after ANY history of compile/purge calls the LRU model returns a '
+             'fresh parse and never exceeds its bound (invariant by induction over operations); purge empties; the real cache is keyed '
+             'on all four arguments / bounded by _MAXCACHE / cleared by purge, compile(compiled) passes through, and every value class '
+             'compares, hashes and pickles exactly its constructor fields - all on tables regenerated from the sources (T3). Histories '
+             'of up to 3000 calls over >500 keys: hit/miss/size vs the Coq model, values vs fresh parses, eq/hash/pickle/copy/immutability.',
+        note='functools.lru_cache is trusted to behave like the model (checked by correspondence).',
+        technique='Coq invariant proof over an LRU model + source-translated tables + history correspondence'),
+    'C16': dict(cat='proof', design='DESIGN.md §7 C16',
+        text='Theorem (finite, decided in the kernel): all 1463 programs of up to three import statements over eleven import forms run to '
+             'completion on an abstract import machine (partial modules, from-import fallback, try/except ImportError) fed with the '
+             'import-time action lists regenerated by T5 from soupsieve/*.py and the installed bs4, with no swallowed ImportError and '
+             'no dynamic attribute access on a partially initialised module. 47 (thorough: 200) programs are run in fresh interpreters: '
+             'silent import, bs4.css.soupsieve is the real module, a battery of 36 selections identical across orders and between '
+             'BeautifulSoup.select and soupsieve.select.',
+        note='the machine abstracts the import protocol; the behavioural half (equal results, no output) is observed, not proved.',
+        technique='Coq finite proof over source-derived import actions + fresh-interpreter enumeration'),
+})
 NOT_YET = {}
 props = [json.loads(l) for l in open(os.path.join(V, 'properties.jsonl'))]
 checks, na = [], []
